@@ -259,7 +259,9 @@ def main():
         statics.append(dict(name=name, ok=ok, detail=detail))
     # ---- classify
     lock = json.load(open(LOCK)) if os.path.exists(LOCK) else {}
-    locked = set(lock.get(prop, []))
+    import re as _re
+    norm = lambda nm: _re.sub(r'@\d+', '@L', nm)       # obligation names carry source lines; a shifted line is still the same obligation
+    locked = {norm(x) for x in lock.get(prop, [])}
     proved = [r for r in res if r['status'] == 'proved']
     unproved = [r for r in res if r['status'] != 'proved']
     # a function with an unproved safety obligation legitimately has contradictory hypotheses downstream (every safety condition is
@@ -287,7 +289,7 @@ def main():
     for k in orc.get('known', []):
         lines.append(f"KNOWN-FINDING: property={prop} {k['what']}")
     # obligations that are unproved
-    refuted_locked = [r for r in unproved if r['status'] == 'refuted' and (r['name'] in locked or not locked)]
+    refuted_locked = [r for r in unproved if r['status'] == 'refuted' and (norm(r['name']) in locked or not locked)]
     undecided = [r for r in unproved if r not in refuted_locked]
     static_fail = [s for s in statics if s['ok'] is False]
     if not violations:
@@ -361,7 +363,7 @@ def main():
                                    bounded=True, evaluations=orc.get('evaluations', 0), distinct_nontrivial=orc.get('distinct', 0),
                                    failures=len(orc.get('failures', [])), samples=orc.get('samples', [])[:3], detail=orc.get('detail', {}))],
             known_findings=[k['what'] for k in orc.get('known', [])],
-            lock=dict(locked=len(locked), missing_from_run=sorted(locked - {r['name'] for r in res})[:20]),
+            lock=dict(locked=len(locked), missing_from_run=sorted(locked - {norm(r['name']) for r in res})[:20]),
             mutation_selftest=selftest,
         ),
         assumptions=P.get('assumptions', []),
